@@ -19,25 +19,34 @@ def variants(rng, n):
         k = 1 if "{" in B else rng.choice([1, 2, 2, 3])
         pre = rng.choice(["", "'a' ", "maybe 'b' ", "line start "])
         suf = rng.choice(["", " 'c'", " maybe 'a'", " word end"])
-        ctxk = rng.choice(["seq", "seq", "loop", "alt"])
+        ctxk = rng.choice(["seq", "seq", "loop", "alt", "bounded-alt", "bounded-maybe", "maybe-alt", "bounded-last"])
         def wrap(first, others):
             refs = [first] + others
             if ctxk == "seq":
                 body = " ".join(refs)
             elif ctxk == "loop":
                 body = "at least 1 (%s)" % " ".join(refs)
+            # a bounded loop that is not unrolled, with a choice point before or after the reference (the loop must still be recognised as the same loop after backtracking)
+            elif ctxk == "bounded-alt":
+                body = "at most 2 ((%s 'b') or 'c')" % " ".join(refs)
+            elif ctxk == "bounded-maybe":
+                body = "at most 2 (maybe (%s) 'c')" % " ".join(refs)
+            elif ctxk == "maybe-alt":
+                body = "maybe ((%s 'b') or 'c')" % " ".join(refs)
+            elif ctxk == "bounded-last":
+                body = "between 0 and 2 ('c' or (%s))" % " ".join(refs)
             else:
                 body = "(%s) or ('zz')" % " ".join(refs)
             return "%s%s%s" % (pre, body, suf)
         written = "find all " + wrap("(%s)" % B, ["(%s)" % B] * (k - 1))
-        if ctxk == "loop":
+        if ctxk in ("loop",):
             # inside an unrolled loop body a subroutine definition would be generated twice: use the global form only
             inline = None
         else:
             inline = "find all " + wrap("{%s} = s" % B, ["s"] * (k - 1))
         glob = "set g to pattern %s\nfind all %s" % (B, wrap("g", ["g"] * (k - 1)))
         glob2 = "set g to pattern %s\nfind all 'q'\nfind all %s\nfind all %s" % (B, wrap("g", ["g"] * (k - 1)), wrap("g", ["g"] * (k - 1)))
-        texts = [genprog.gen_text(rng, "abc", 10) for _ in range(6)]
+        texts = [genprog.gen_text(rng, "abc", 10) for _ in range(6)] + (["ccc", "cacac", "cc", "acbcc", "ccabcc"] if ctxk.startswith(("bounded", "maybe")) else [])
         out.append({"B": B, "written": written, "inline": inline, "global": glob, "global_multi": glob2, "texts": texts})
     return out
 
@@ -185,7 +194,7 @@ def run(ctx):
     ctx.coverage["evaluations"] = ev + stats["attempt_texts"]
     ctx.coverage["distinct_nontrivial"] = len(nt)
     ctx.coverage["agreement"] = stats
-    ctx.coverage["rule"] = ("capture-free bodies B x contexts (prefix, suffix, inside a loop / an alternation) x 1..3 references: written out vs {B}=s with calls vs "
+    ctx.coverage["rule"] = ("capture-free bodies B x contexts (prefix, suffix, inside a loop / an alternation / a bounded loop with a choice point before or after the reference) x 1..3 references: written out vs {B}=s with calls vs "
                             "set g to pattern B, alone and in a 4-command source sharing the definition; per-command results vs the commands run alone (concatenation); "
                             "histories compile-twice / run-twice-in-another-order; non-trivial = distinct (source, form, text) with a match")
     ctx.sample({"written": vs[0]["written"], "global": vs[0]["global"], "text": vs[0]["texts"][0]})
